@@ -404,6 +404,9 @@ pub fn replay(beh: &Value, beh_id: usize, epilogue: &str) -> ReplayResult {
     crate::world::AUX_SERIAL.store(100_000, std::sync::atomic::Ordering::Relaxed);
     ev!("{{\"ev\":\"reset\",\"beh\":{},\"epilogue\":\"{}\"}}", beh_id, epilogue);
     let n_arenas = beh.get("arenas").and_then(|v| v.as_u64()).unwrap_or(1) as usize;
+    // Two arenas, "drop" variant: the allocator hands a released block out again at once (as a real one would),
+    // so that one arena gets the addresses the other gave back; otherwise released blocks stay quarantined.
+    ALLOC.set_reuse(n_arenas == 2 && epilogue == "drop");
     let mut ws: Vec<World> = (0..n_arenas).map(|i| World::new(i as u32, 1 + 10_000 * i as u32)).collect();
     let mut skipped = 0;
     let mut debt_drift = None;
